@@ -60,6 +60,10 @@ CLAIMED = {
     text="specs/Projection.tla extends the view state machine: a view program on an array of records {short a; short b;}, then one projection (member_cast of either member, reinterpret_array_cast<int32>() in place, reinterpret_array_cast<short>(2) adding a trailing dimension, static_array_cast to const, const_array_cast, as_const, lazy element_transformed(f) read after the source was mutated, element_transformed with a reference-returning function written through, conversion to an array of another element type; the casts also through const views), then view operations on the projected view; the specification prescribes the resulting shape, the storage unit every element designates and the value read there; the replayer reports the same from the real views (addresses relative to the root's storage) and they must agree; write-through and storage independence of converted arrays are checked on the root afterwards.",
     note="bounded: roots D<=3, extents 0..3, one view operation before and one after the cast (two in thorough); little-endian; const_array_cast/as_const do not exist for 1-D views; complex real/imag projections are not exercised here.",
     ref="DESIGN.md section 5 C12"),
+ "C17": dict(
+    text="specs/Serialization.tla models the archive as a token sequence (per dimension first and last index, then the elements in canonical order) and Load as 'take the saved extensions whatever the target held'; TLC checks the round trip on the model for every array within the bounds and every prior state of the target (empty, same extents, other extents) and emits the prescribed token stream; the replayer performs the real round trip through Boost.Serialization text, binary and XML archives for int, double and std::string elements and the loaded array must equal the original (extents as the library reports them, index bases, elements, operator==) and the XML token order must equal the prescribed stream; every ViewAlgebra view is saved and loaded into a fresh array's view and into a view with rotated memory layout: exactly the view's elements in canonical order, other elements untouched, source unchanged.",
+    note="bounded: D 1..4, extents 0..3/2/2/1, index bases {-1,0,2} for D<=2; views: roots D<=3, extents 0..2, programs of <= 2 operations; nested-array element types and D=0 are not exercised; the life cycle of the load path is not re-validated here (C08 covers clear/reextent).",
+    ref="DESIGN.md section 5 C17"),
 }
 
 props = [json.loads(l) for l in open(os.path.join(V, "properties.jsonl"))]
